@@ -4,6 +4,7 @@
    Vocabulary (definitions in the Proofs files, all computable unless noted):
      zbits d            the bits of byte string d in the order the CRC consumes them (byte by byte, LSB first)
      zxor d e           bytewise xor
+     zbits_msb d        the same bits with the MOST significant bit of each byte first (used only in the refutation)
      burst_pattern b    (Prop) b = 0^a ++ w ++ 0^c with |w| <= 32 and w not all zero
      burst32b b         the same as a boolean: some bit set, every set bit within 32 positions of the first
      flip_bit d i       d with bit i (CRC order) inverted
@@ -26,39 +27,58 @@
 From AV Require Import Base.Util Model.Prim Model.Crc Model.MsgSet Model.FetchGrow Model.Responses
      Proofs.PrimFacts Proofs.CrcBurst Proofs.DecodeTotal Proofs.Truncation Proofs.FetchGrowFacts Proofs.C12Resp.
 
-(* ================================================================== 1. CRC-32 burst detection *)
+(* ================================================================== 1. CRC-32 error detection *)
 
-(* the byte-wise CRC that runs is the bit-serial register the burst argument is about *)
+(* the byte-wise CRC that runs is the bit-serial register the arguments below are about *)
 Theorem C12_crc_bridge : forall data r, Forall (fun b => (b < 256)%N) data -> crc_update r data = crc_bits r (bits_of data).
 Proof. exact crc_update_bits. Qed.
 Print Assumptions C12_crc_bridge.
 
-(* every non-zero error pattern whose set bits span at most 32 consecutive bit positions changes the checksum *)
-Theorem C12_crc_burst : forall d e,
-  bytes_ok d = true -> bytes_ok e = true -> length d = length e -> burst_pattern (zbits e) ->
-  crc32 (zxor d e) <> crc32 d.
-Proof. exact crc_burst. Qed.
-Print Assumptions C12_crc_burst.
-
-(* the same with the decidable form of "burst" *)
-Theorem C12_crc_burst_decidable : forall d e,
-  bytes_ok d = true -> bytes_ok e = true -> length d = length e -> burst32b (zbits e) = true ->
-  crc32 (zxor d e) <> crc32 d.
-Proof. exact crc_burst_b. Qed.
-Print Assumptions C12_crc_burst_decidable.
+(* ---- what the property text asks for, independent of any bit numbering *)
 
 (* every single-bit flip *)
 Theorem C12_crc_bitflip : forall d i, bytes_ok d = true -> (i < 8 * length d)%nat -> crc32 (flip_bit d i) <> crc32 d.
 Proof. exact crc_bitflip. Qed.
 Print Assumptions C12_crc_bitflip.
 
-(* every alteration confined to at most 4 consecutive bytes *)
+(* every alteration confined to at most 4 consecutive bytes ("short burst" in any numbering of the bits: it contains
+   every burst of at most 25 bits whichever end of a byte is counted first) *)
 Theorem C12_crc_4bytes : forall pre mid mid' post,
   bytes_ok (pre ++ mid ++ post) = true -> bytes_ok mid' = true ->
   length mid' = length mid -> (length mid <= 4)%nat -> mid' <> mid ->
   crc32 (pre ++ mid' ++ post) <> crc32 (pre ++ mid ++ post).
 Proof. exact crc_4bytes. Qed.
 Print Assumptions C12_crc_4bytes.
+
+(* ---- bursts up to 32 bits: IN THE CRC'S OWN BIT ORDER.
+   [zbits d] lists the bits byte by byte and, inside each byte, LEAST significant bit first - the order in which the
+   reflected CRC-32 of zlib consumes them.  Every non-zero error pattern whose set bits lie within 32 consecutive
+   positions OF THAT ORDER changes the checksum.  (Such a window may touch 5 bytes; it is NOT the same set of patterns
+   as "32 consecutive positions" with the most significant bit of each byte first - see the refutation below.) *)
+Theorem C12_crc_burst_lsb_order : forall d e,
+  bytes_ok d = true -> bytes_ok e = true -> length d = length e -> burst_pattern (zbits e) ->
+  crc32 (zxor d e) <> crc32 d.
+Proof. exact crc_burst. Qed.
+Print Assumptions C12_crc_burst_lsb_order.
+
+(* the same with the decidable form of "burst" *)
+Theorem C12_crc_burst_lsb_order_decidable : forall d e,
+  bytes_ok d = true -> bytes_ok e = true -> length d = length e -> burst32b (zbits e) = true ->
+  crc32 (zxor d e) <> crc32 d.
+Proof. exact crc_burst_b. Qed.
+Print Assumptions C12_crc_burst_lsb_order_decidable.
+
+(* REFUTED: the reading "every burst of at most 32 bits" with positions numbered most significant bit first.
+   0a 1e e9 d5 e0 xored into five consecutive bytes (set bits within 31 consecutive MSB-first positions) is a multiple of
+   the generator polynomial: no CRC-32 (zlib's, and hence afkak's check) notices it.  Inherent to the checksum, not
+   a defect of afkak; recorded so that the theorem above is not read for more than it says.  Replayed on the real
+   decoder by harness/props/C12.py (the altered message IS delivered). *)
+Theorem C12_crc_burst_msb_order_refuted :
+  exists d e, bytes_ok d = true /\ bytes_ok e = true /\ length d = length e /\
+              burst32b (zbits_msb e) = true /\ burst32b (zbits e) = false /\
+              zxor d e <> d /\ crc32 (zxor d e) = crc32 d.
+Proof. exact burst_msb_order_refuted. Qed.
+Print Assumptions C12_crc_burst_msb_order_refuted.
 
 (* the checksum is a 32-bit value (so the 4-byte field stores it exactly) *)
 Theorem C12_crc_range : forall d, bytes_ok d = true -> 0 <= crc32 d < 4294967296.
